@@ -152,7 +152,9 @@ class SimulationBuilder:
 
         if not are_entities_specified(params := input_dict, variables):
             return self.build_from_variables(tax_benefit_system, params)
-        return None
+
+        # Unknown entities are reported by ``build_from_entities``.
+        return self.build_from_entities(tax_benefit_system, input_dict)
 
     def build_from_entities(
         self,
